@@ -157,6 +157,20 @@ def run(ctx):
         streams["mrs"] = ("model", "lcd_rs")
     outs = corr.run_streams(ctx, lines, streams)
     corr.compare(ctx, "lcd", lines, outs, [("py", "mpy"), ("rs", "mrs")])
+    # the public snapshot API must show the live controller state at every point (after reads too)
+    sn_lines = [" ".join(("st sn" if o == "st" else o) for o in (l.split() + ["st"])) for l in lines[: (4000 if ctx.tier == "thorough" else 400)]]
+    sn_out = corr.run_streams(ctx, sn_lines, {"py": ("py", "lcd_py")})["py"]
+    for l, o in zip(sn_lines, sn_out):
+        ctx.evaluations += 1
+        ops, res = l.split(), o.split(";")
+        if len(ops) != len(res):
+            ctx.report(["py", "error", "snapshot_stream"], f"py answered {len(res)} fields for {len(ops)} ops: {o[:80]}", {"case": l})
+            continue
+        for k in range(1, len(ops)):
+            if ops[k] == "sn" and res[k] != res[k - 1]:
+                ctx.report(["py", "snapshot_api_differs_from_live_state"], f"get_snapshot() shows (on,start,page,y,vram)x2 = {res[k]} while the chips hold {res[k - 1]}", {"case": " ".join(ops[:k + 1])})
+                break
+    ctx.count("snapshot_api_cases", len(sn_lines))
     for i, l in enumerate(lines):
         ctx.evaluations += 1
         ctx.traces += 1
